@@ -694,15 +694,19 @@ TF_PARAMS_T = ('{<<>>, << <<"a", "1">> >>, << <<"__categorical__", "true">> >>, 
 def run_C17(ctx):
     ctx.build_l2()
     q = ctx.quick()
-    # (depth 2 with the full parameter / dtype alphabets does not finish in half an hour: the thorough tier deepens, the quick
-    #  tier keeps the wide alphabets at depth 1)
-    consts = dict(MaxDepth="1" if q else "2", ParamSets=TF_PARAMS_Q,
-                  TypeStrsSet='{"", "mytype"}', RecNames='{"", "Point", "int"}' if q else '{"", "Point"}', Dtypes='{"int64"}',
+    # (exhaustive depth 2 does not finish in half an hour even with the narrow alphabets: depth 1 is exhaustive -- with the
+    #  wide alphabets in the thorough tier -- and deeper trees are sampled by TLC's simulation mode)
+    consts = dict(MaxDepth="1", ParamSets=TF_PARAMS_Q if q else TF_PARAMS_T,
+                  TypeStrsSet='{"", "mytype"}', RecNames='{"", "Point", "int"}', Dtypes='{"int64"}' if q else '{"int64", "bool", "float32"}',
                   EmitOn="TRUE")
     ctx.l2_phase("type-printer-parser", "TypesForms", consts, ("l2replay", "h_c17_types"), invariants=["PrintsSomething"],
                  init="TFInit", next_="TFNext", view="TFView", action_constraints=["TFEmit"],
                  require_actions=["Leaf", "WrapList", "WrapReg", "WrapOpt", "WrapUnion", "WrapRec"],
                  sample_cases=(20000 if q else 400000), timeout=1500)
+    consts = dict(consts, MaxDepth="3", ParamSets=TF_PARAMS_Q, Dtypes='{"int64"}')
+    ctx.l2_phase("type-printer-parser-deep-simulate", "TypesForms", consts, ("l2replay", "h_c17_types"), invariants=["PrintsSomething"],
+                 init="TFInit", next_="TFNext", view=None, action_constraints=["TFEmit"],
+                 simulate="num=%d" % (4000 if q else 150000), depth=14, timeout=900)
     # layouts: type = type of form; form survives JSON; depth / keys / regularity queries; range slices; elements
     consts = session_consts(OpSet='{"typeform"}', LeafSet=MIXED_LEAVES, MaxDepth="2", MaxLen="2", Classes=ALL_CLASSES)
     ctx.tlc_phase("layouts-type-form-queries", "Session", consts, invariants=["Closed"], translate=("typeform", "steps_typeform"),
